@@ -21,7 +21,7 @@ def configs(tier):
     if tier == 'quick':
         add(spec('localp', 'localp', 2, 1, 2, order=1), 1, 16); add(spec('localp', 'localp', 1, 1, 3, order=2), 1, 12); add(spec('localp', 'semi-localp', 1, 1, 3, order=3), 1, 12); add(spec('localp', 'localp-zero', 1, 1, 2, order=4), 1, 10); add(spec('localp', 'localp-zero', 1, 1, 4, order=5), 1, 40); add(spec('localp', 'localp', 1, 1, 5, order=6), 1, 40); add(spec('localp', 'semi-localp', 1, 1, 5, order=-1), 1, 40)
         add(spec('localp', 'localp-boundary', 2, 1, 1, order=-1, transform=1), 1, 10); add(spec('localp', 'localp', 2, 1, 1, order=1), 2, 8)
-        add(spec('global', 'clenshaw-curtis', 2, 1, 2), 1); add(spec('global', 'gauss-legendre', 1, 2, 4, transform=1), 1); add(spec('global', 'leja', 2, 1, 3), 2)
+        add(spec('global', 'clenshaw-curtis', 2, 1, 2), 1); add(spec('global', 'gauss-legendre', 1, 2, 4, transform=1), 1); add(spec('global', 'clenshaw-curtis', 2, 2, 2, transform=1), 1); add(spec('localp', 'localp', 2, 2, 2, order=1, transform=1), 1, 24); add(spec('sequence', 'rleja', 2, 3, 2, transform=1), 1); add(spec('global', 'leja', 2, 1, 3), 2)
         add(spec('sequence', 'rleja', 2, 1, 3), 1); add(spec('sequence', 'min-lebesgue', 1, 1, 6, transform=1), 2)
         add(spec('fourier', 'fourier', 1, 1, 1), 1); add(spec('fourier', 'fourier', 2, 1, 1), 2)
         add(spec('wavelet', 'wavelet', 1, 1, 2, order=1), 1, 12)
